@@ -8,6 +8,8 @@ mod dump;
 mod echo;
 mod errs;
 mod listparse;
+mod shape_recv;
+mod shapes;
 mod util;
 
 fn dispatch(case: &Value) -> Value {
@@ -18,6 +20,7 @@ fn dispatch(case: &Value) -> Value {
         "conv" => conv::run_conv(case),
         "int_sweep" => conv::run_int_sweep(case),
         "parse_list" => listparse::run_parse_list(case),
+        "shape" => shapes::run_shape(case),
         _ => json!({"error": format!("unknown op {}", op)}),
     }
 }
